@@ -317,6 +317,80 @@ def c04_4(ck, prog):
             r.violation('%s->%s' % (q, via), q, D, fn.line, '%s no longer reads the registry through %s' % (q, via))
 
 
+def c04_5(ck, prog):
+    r = ck.rule('C04.5', 'queue positions: an owner enters the queue only at the tail (new waiter) or right after '
+                'the head (replaced primary owner, REPLACE_EXISTING waiter); the head that is swapped out is the '
+                'first link; only the transaction restore hook re-inserts at a computed place', 'TAB',
+                breaks='after a replacement the old owner is not second in line: the name later goes to the wrong '
+                       'connection and ListQueuedOwners shows the wrong order', floor=4)
+    INS = {'_dbus_list_append', '_dbus_list_prepend', '_dbus_list_insert_after', '_dbus_list_insert_after_link',
+           '_dbus_list_insert_before_link', '_dbus_list_insert_before', '_dbus_list_append_link',
+           '_dbus_list_prepend_link'}
+    EDIT = INS | {'_dbus_list_unlink', '_dbus_list_remove_link', '_dbus_list_remove', '_dbus_list_remove_last'}
+
+    def owners_arg(c):
+        a0 = strip_addr(c['args'][0]) if c['args'] else None
+        return a0 is not None and is_member(a0, 'owners', 'BusService')
+
+    def is_first_link(e):
+        return is_call(e, '_dbus_list_get_first_link') and owners_arg(e)
+    for f in lib.prod_funcs(prog, {S}):
+        for bid, blk in f.blocks.items():
+            evs = blk['events']
+            for i, ev in enumerate(evs):
+                if ev['ev'] != 'call' or ev['e'].get('callee') not in INS or not owners_arg(ev['e']):
+                    continue
+                c = ev['e']
+                cal = c['callee']
+                key = '%s:%s' % (f.name, cal)
+                if cal == '_dbus_list_append':
+                    r.ok(key, {'site': '%s:%d' % (S, c['line']), 'position': 'tail'})
+                    continue
+                if cal in ('_dbus_list_insert_after', '_dbus_list_insert_after_link'):
+                    anchor = c['args'][1]
+                    good = is_first_link(anchor)
+                    if not good and is_ref(anchor):
+                        # the anchor variable was loaded from the head in this block, after the last edit
+                        for j in range(i - 1, -1, -1):
+                            e2 = evs[j]
+                            if e2['ev'] == 'call' and e2['e'].get('callee') in EDIT and owners_arg(e2['e']):
+                                break
+                            hit = [rhs for l, h, rhs in written_lvalues(e2)
+                                   if is_ref(l) and l.get('id') == anchor.get('id') and h in ('=', 'decl')]
+                            if hit:
+                                good = hit[0] is not None and is_first_link(hit[0])
+                                break
+                    if good:
+                        r.ok(key, {'site': '%s:%d' % (S, c['line']), 'position': 'after the head'})
+                    else:
+                        r.violation(key, f.name, S, c['line'],
+                                    '%s inserts into the owner queue after %s, which is not the current head link'
+                                    % (f.name, estr(anchor)))
+                    continue
+                if cal == '_dbus_list_insert_before_link' and f.name == 'restore_ownership':
+                    r.ok(key, {'site': '%s:%d' % (S, c['line']), 'position': 'restored by the cancel hook'})
+                    continue
+                r.violation(key, f.name, S, c['line'], '%s enters the owner queue with %s (neither the tail nor '
+                            'right after the head)' % (f.name, cal))
+    # the link that swap_owner moves is the head
+    sw = prog.fn('bus_service_swap_owner', S)
+    un = [c for b, i, c in sw.calls('_dbus_list_unlink') if owners_arg(c)]
+    okh = False
+    for c in un:
+        a = c['args'][1]
+        if is_ref(a):
+            defs = [rhs for b, i, ev in sw.events() for l, h, rhs in written_lvalues(ev)
+                    if is_ref(l) and l.get('id') == a.get('id') and rhs is not None]
+            okh = bool(defs) and all(is_first_link(d) for d in defs)
+            ins = [cc for b, i, cc in sw.calls('_dbus_list_insert_after_link') if owners_arg(cc)]
+            okh = okh and ins and all(is_ref(cc['args'][2]) and cc['args'][2].get('id') == a.get('id') for cc in ins)
+    if okh:
+        r.ok('bus_service_swap_owner:moves-the-head')
+    else:
+        r.violation('bus_service_swap_owner:moves-the-head', sw.name, S, sw.line,
+                    'the link unlinked and re-inserted by bus_service_swap_owner is not the head of the queue')
+
+
 def run(ck):
     ck.explanation = (
         'Static rules over bus/services.c and bus/driver.c: (DEC) the if-chains of bus_registry_acquire_service, '
@@ -333,3 +407,4 @@ def run(ck):
         c04_2(ck, prog)
         c04_3(ck, prog)
         c04_4(ck, prog)
+        c04_5(ck, prog)
